@@ -36,14 +36,23 @@ theorem bind_err {α β} {x : EvalM α} {f : α → EvalM β} {l l' : List Event
 @[simp] theorem recDbg_false (v : Val) (col : Int) (l : List Event) :
     recDbg false v col l = (.ok v, l) := rfl
 
-/-- a result that is not an internal fault -/
+/-- a miss of the harness' table of external functions (`regexp.MatchString`, `strtotime`): a
+device of the model (`Yae.Sound.Allowed`), raised inside `applyBuiltin`, which the evaluator and
+the machine both call with the same arguments -/
+@[simp] def ExternMiss (m : String) : Prop := m = "extern-miss:regex" ∨ m = "extern-miss:strtotime"
+
+instance (m : String) : Decidable (ExternMiss m) := by unfold ExternMiss; infer_instance
+
+/-- a result that is not an internal fault (`stuck`, other than a miss of the externs table) -/
 def NotStuck {α} : Except Fail α → Prop
-  | .error (.stuck _) => False
+  | .error (.stuck m) => ExternMiss m
   | _ => True
 
 @[simp] theorem notStuck_ok {α} (a : α) : NotStuck (.ok a : Except Fail α) := trivial
-@[simp] theorem notStuck_stuck {α} (m : String) : ¬ NotStuck (.error (.stuck m) : Except Fail α) :=
-  fun h => h
+@[simp] theorem notStuck_stuck_iff {α} (m : String) :
+    NotStuck (.error (.stuck m) : Except Fail α) ↔ ExternMiss m := Iff.rfl
+theorem notStuck_stuck {α} {m : String} (hm : ¬ ExternMiss m) :
+    ¬ NotStuck (.error (.stuck m) : Except Fail α) := hm
 
 /-- continue from the result of a built-in: log what it printed -/
 def applyThen {β} (r : Except Fail (Val × List Event)) (l : List Event)
